@@ -82,23 +82,82 @@ Definition eff_ok (s : st) (e : effect) : Prop :=
   | _ => True
   end.
 
+(* ---- the shapes of the account list after an effect ---- *)
+Opaque mutate.
+Lemma eset_users s E a m :
+  let us' := s_users (apply_effect s E (ESet a m)) in
+  us' = put (mutate a m) (s_users s) \/ us' = s_users s \/
+  exists h, m = MHostAdd h /\ us' = put (mutate (mutate a m) (MHostDel h)) (put (mutate a m) (s_users s)).
+Proof.
+  cbv zeta. cbn [apply_effect].
+  destruct (rolls_back m && set_user_dup (store s (mutate a m)) E (mutate a m)); [|left; reflexivity].
+  destruct m; try (right; left; reflexivity).
+  destruct (C16.Model.iset_mem h _); [left; reflexivity|]. right. right. exists h. split; reflexivity.
+Qed.
+
+Lemma eset_next s E a m :
+  s_next (apply_effect s E (ESet a m)) = Z.max (s_next s) (aid (mutate a m))
+  \/ s_next (apply_effect s E (ESet a m)) = Z.max (s_next s) (aid a).
+Proof.
+  cbn [apply_effect].
+  destruct (rolls_back m && set_user_dup (store s (mutate a m)) E (mutate a m)); [|left; reflexivity].
+  destruct m; try (right; reflexivity).
+  destruct (C16.Model.iset_mem h _); left; reflexivity.
+Qed.
+
+Lemma eset_rest s E a m :
+  s_creator (apply_effect s E (ESet a m)) = s_creator s.
+Proof.
+  cbn [apply_effect].
+  destruct (rolls_back m && set_user_dup (store s (mutate a m)) E (mutate a m)); [|reflexivity].
+  destruct m; try reflexivity. destruct (C16.Model.iset_mem h _); reflexivity.
+Qed.
+Transparent mutate.
+
+Definition reg_u1 (s : st) (name pw : str) : C16.Model.user :=
+  set_pw (C16.Model.set_name name (C16.Model.User (Some (s_next s + 1)%Z) [] false false true [] [] [] [] [])) pw.
+
+Lemma ereg_shape s E name pw addmask :
+  let s' := apply_effect s E (ERegister name pw addmask) in
+  s_next s' = (s_next s + 1)%Z /\ s_creator s' = s_creator s /\
+  (s_users s' = del (s_next s + 1)%Z (s_users s)
+   \/ s_users s' = put (Acct (reg_u1 s name pw) []) (s_users s)
+   \/ (C16.Model.is_user_hostmask (e_prefix E) = true /\
+       s_users s' = put (Acct (C16.Model.set_hosts (C16.Model.iset_add [] (e_prefix E)) (reg_u1 s name pw)) []) (s_users s))).
+Proof.
+  cbv zeta. cbn [apply_effect]. fold (reg_u1 s name pw).
+  destruct addmask; cbn [andb].
+  - destruct (C16.Model.is_user_hostmask (e_prefix E)) eqn:Hm; cbn [negb].
+    + destruct (Nat.ltb _ 3).
+      * split; [reflexivity|split; [reflexivity|left; reflexivity]].
+      * match goal with |- context[if ?b then _ else _] => destruct b end;
+          (split; [reflexivity|split; [reflexivity|]]); [left; reflexivity|right; right; split; reflexivity].
+    + split; [reflexivity|split; [reflexivity|right; left; reflexivity]].
+  - match goal with |- context[if ?b then _ else _] => destruct b end;
+      (split; [reflexivity|split; [reflexivity|]]); [left; reflexivity|right; left; reflexivity].
+Qed.
+
 Opaque mutate.
 Lemma apply_effect_sub s E e :
   eff_ok s e -> owners_sub (s_users (apply_effect s E e)) (s_users s).
 Proof.
-  destruct e as [|a m|z|name pw addmask|ch c|h|h]; simpl; intro H; try apply owners_sub_refl.
+  destruct e as [|a m|z|name pw addmask|ch c|h|h]; intro H; try apply owners_sub_refl.
   - destruct H as [Hin Hm].
     assert (H1 : owners_sub (put (mutate a m) (s_users s)) (s_users s)).
     { apply put_sub with (a := a); [exact Hin|apply aid_mutate|apply is_owner_mutate; exact Hm]. }
-    destruct m; simpl; try exact H1.
-    match goal with |- context[if ?b then _ else _] => destruct b end; simpl; [|exact H1].
-    eapply owners_sub_trans; [|exact H1].
-    apply put_sub with (a := mutate a (MHostAdd h)).
-    + apply put_In_self.
-    + apply aid_mutate.
-    + apply is_owner_mutate. exact Logic.I.
-  - apply del_sub.
-  - apply put_sub_fresh. match goal with |- context[if ?b then _ else _] => destruct b end; reflexivity.
+    destruct (eset_users s E a m) as [K|[K|(h & Em & K)]]; rewrite K.
+    + exact H1.
+    + apply owners_sub_refl.
+    + subst m. eapply owners_sub_trans; [|exact H1].
+      apply put_sub with (a := mutate a (MHostAdd h)).
+      * apply put_In_self.
+      * apply aid_mutate.
+      * apply is_owner_mutate. exact Logic.I.
+  - simpl. apply del_sub.
+  - destruct (ereg_shape s E name pw addmask) as (_ & _ & [K|[K|[_ K]]]); rewrite K.
+    + apply del_sub.
+    + apply put_sub_fresh. reflexivity.
+    + apply put_sub_fresh. reflexivity.
 Qed.
 Transparent mutate.
 
